@@ -4,6 +4,9 @@ CONSTANTS Procs = {"p1", "p2", "p3"}
           Addrs = {1, 2, 3, 4, 9}
           MaxCrash = 0
           MaxPre = 0
+          Mutex = TRUE
+          LockedInit = TRUE
+          Bare = FALSE
 INVARIANT Observe
 CONSTRAINT Progress
 POSTCONDITION Post
